@@ -513,7 +513,7 @@ def run_K(ck, translator_ok=True):
 
 # ====================================================================== search: real models against an independent oracle
 SEARCH_CATALOGUE = ["SIR", "SEIR", "SIS", "SIR_Birth_Death", "SEIR_Birth_Death", "Lotka_Volterra", "SIR_norm", "FitzHugh",
-                    "vanDerPol", "Influenza_SLIARD"]
+                    "vanDerPol", "Influenza_SLIARD", "SIS_Periodic"]
 LOSSES = ["Square", "Normal", "Gamma", "Poisson", "NegBinom"]
 TRAJ_TOL = 3e-6          # C02's contract for the scipy.integrate.ode path: |x - ref| <= TRAJ_TOL*(1 + |ref|)
 ZERO_TOL = 1e-10         # square cost on noise-free data at the data-generating parameters <= ZERO_TOL * sum(y^2)
@@ -525,6 +525,7 @@ def model_rhs(spec):
     import sympy, c02
     names = list(spec["states"]) + list(spec["porder"])
     loc = {k: sympy.Symbol(k) for k in names}
+    loc["t"] = sympy.Symbol("t")
     if spec["kind"] == "catalogue":
         ex = [sympy.sympify(r, locals=loc) for r in c02.CATALOGUE[spec["name"]]["rhs"]]
     else:
@@ -537,8 +538,8 @@ def model_rhs(spec):
                     ex[idx[o]] = ex[idx[o]] - r
                 if ty in ("T", "B"):
                     ex[idx[d]] = ex[idx[d]] + r
-    f = sympy.lambdify([[loc[s] for s in spec["states"]], [loc[k] for k in spec["porder"]]], ex, modules="math")
-    return lambda t, x, pv: np.array(f(x, pv), dtype=float)
+    f = sympy.lambdify([loc["t"], [loc[s] for s in spec["states"]], [loc[k] for k in spec["porder"]]], ex, modules="math")
+    return lambda t, x, pv: np.array(f(t, x, pv), dtype=float)
 
 
 def ref_traj(rhs, pv, x0, t0, grid):
